@@ -118,11 +118,16 @@ def run (j : Json) : Except String Json := do
       out := out ++ [("printed", encStr printed)]
       let p := cp.abstract
       let spec := findSpec p root start single strict
-      out := out ++ [("denoted", resJson tbl spec), ("canon", Json.bool (Canon p))]
-      if cp.wf && Canon p then
-        let agrees := printed == path && findResEq spec res &&
+      let specC := findSpec (cancel p) root start single strict
+      out := out ++ [("denoted", resJson tbl spec), ("canon", Json.bool (Canon p)),
+        ("cancelled", resJson tbl specC)]
+      if cp.wf then
+        -- theorems find_print_cancel / find_print_denotes / tokenize_print, re-checked on the case
+        let hasDots := p.steps.any (fun s => s.isUp || s.isHere)
+        let agrees := printed == path && findResEq specC res &&
+          (!(Canon p) || findResEq spec res) &&
           (match tokenize path with
-           | .ok ops => ops == canonicalize (compile p) || ops == compile p
+           | .ok ops => ops == (if hasDots then canonicalize (compile p) else compile p)
            | .error _ => false)
         out := out ++ [("spec_agrees", Json.bool agrees)]
   return obj out
